@@ -240,27 +240,34 @@ Section Atomic.
       1-6: simpl in Hb, Ho; simpl eff in *; eapply IH; eauto.
       + (* BuildText *)
         simpl in Hb, Ho.
-        destruct (IH (S i) (eff st BuildText) true Hb Ho Hf') as [H1 H2]; simpl; auto.
+        assert (Ht' : true = true -> text (eff st BuildText) = Some full /\
+                      (ret (eff st BuildText) = Some full \/ ret (eff st BuildText) = Some MSG))
+          by (intros _; simpl; auto).
+        exact (IH (S i) (eff st BuildText) true Hb Ho Hf' Ht' Hs Hok).
       + (* OpenTruncate *)
         simpl in Hb. apply andb_true_iff in Hb. destruct Hb as [Hbt Hb]. subst built.
         destruct r as [|o2 r']; [simpl in Ho; discriminate|].
         destruct o2; simpl in Ho; try discriminate.
-        destruct (IH (S i) (eff st OpenTruncate) true Hb Ho Hf') as [H1 H2]; simpl; auto.
+        destruct (IH (S i) (eff st OpenTruncate) true Hb Ho Hf' Ht Hs Hok) as [H1 H2].
+        split; [|exact H2]. rewrite H1. reflexivity.
       + (* WriteAll *)
         simpl in Hb, Ho. apply andb_true_iff in Hb. destruct Hb as [Hbt Hb]. subst built.
         destruct (Ht eq_refl) as [Htx Hret].
-        destruct (IH (S i) (eff st WriteAll) true Hb Ho Hf') as [H1 H2]; simpl; auto.
+        destruct (IH (S i) (eff st WriteAll) true Hb Ho Hf' Ht Hs Hok) as [H1 H2].
         split; [|exact H2]. rewrite H1. simpl. rewrite Htx. destruct (existsb is_write r); reflexivity.
       + (* ReturnMsg *)
         simpl in Hb, Ho.
-        destruct (IH (S i) (eff st ReturnMsg) built Hb Ho Hf') as [H1 H2]; simpl; auto.
-        intros Hbt. destruct (Ht Hbt). auto.
+        assert (Ht' : built = true -> text (eff st ReturnMsg) = Some full /\
+                      (ret (eff st ReturnMsg) = Some full \/ ret (eff st ReturnMsg) = Some MSG))
+          by (intros Hbt; destruct (Ht Hbt); simpl; auto).
+        exact (IH (S i) (eff st ReturnMsg) built Hb Ho Hf' Ht' Hs Hok).
       + (* Print *)
         simpl in Hb, Ho. apply andb_true_iff in Hb. destruct Hb as [Hbt Hb]. subst built.
         destruct (Ht eq_refl) as [Htx Hret].
-        destruct (IH (S i) (eff st Print) true Hb Ho Hf') as [H1 H2]; simpl; auto.
-        apply Forall_app. split; [exact Hs|].
-        destruct Hret as [-> | ->]; constructor; unfold good_line; auto.
+        assert (Hs' : Forall good_line (stdout (eff st Print))).
+        { simpl. apply Forall_app. split; [exact Hs|].
+          destruct Hret as [-> | ->]; constructor; unfold good_line; auto. }
+        exact (IH (S i) (eff st Print) true Hb Ho Hf' Ht Hs' Hok).
   Qed.
 
   Theorem atomic_success : forall ops file0,
@@ -292,6 +299,21 @@ Qed.
 Example reordered_refuted_generate : forall full old,
   failed (run_ops full (fun i => Nat.eqb i 6) reordered_ops (Some old)) = true /\
   file (run_ops full (fun i => Nat.eqb i 6) reordered_ops (Some old)) = Some [].
+Proof. intros. vm_compute. auto. Qed.
+
+(* the second and third conjunct of atomicb are what atomic_success needs: without them a run can SUCCEED and yet
+   leave an empty / deleted file *)
+Example write_before_build_refuted : forall full old,
+  no_effect_before_fallible [Validate; WriteAll; Print] = true /\
+  built_before_open [Validate; WriteAll; Print] false = false /\
+  failed (run_ops full (fun _ => false) [Validate; WriteAll; Print] (Some old)) = false /\
+  file (run_ops full (fun _ => false) [Validate; WriteAll; Print] (Some old)) = None.
+Proof. intros. vm_compute. auto. Qed.
+Example open_without_write_refuted : forall full old,
+  no_effect_before_fallible [BuildText; OpenTruncate; ReturnMsg; Print] = true /\
+  open_then_write [BuildText; OpenTruncate; ReturnMsg; Print] = false /\
+  failed (run_ops full (fun _ => false) [BuildText; OpenTruncate; ReturnMsg; Print] (Some old)) = false /\
+  file (run_ops full (fun _ => false) [BuildText; OpenTruncate; ReturnMsg; Print] (Some old)) = Some [].
 Proof. intros. vm_compute. auto. Qed.
 
 (* ============================================================================================================ *)
